@@ -150,6 +150,11 @@ class ConcatenatedLazyIndexer(LazyIndexer):
                 chunk_start = start - indexer_starts[ind] \
                     if start >= indexer_starts[ind] else ((start - indexer_starts[ind]) % stride)
                 chunk_stop = stop - indexer_starts[ind]
+                # Skip an indexer from which nothing is selected (but keep one chunk if nothing is selected at
+                # all): it would get a slice that ends before it starts, and an indexer that is a concatenation
+                # itself (concatenated v1 data sets) cannot extract that
+                if chunks and chunk_start >= chunk_stop:
+                    continue
                 # The final .reshape is needed to upgrade any scalar or singleton chunks to full dimension
                 chunks.append(self.indexers[ind][tuple([slice(chunk_start, chunk_stop, stride)] +
                                                        keep_tail)].reshape(tuple([-1] + shape_tails)))
